@@ -133,6 +133,11 @@ pub fn explore(ctx: &Ctx, shard: usize, n: usize) -> Report {
                 for fi in 0..26 { for pos in [true, false] { seg_case(&mut rep, s, fi, pos); } }
             }
         } }
+        // every byte value of the root and laryngeal nodes, also those above the three bits in use (the accessors take any byte)
+        if k % 64 == 0 && !slice { for b in 8..=255u8 { for which in 0..2 {
+            let mut s = Segment::default(); s.root = if which == 0 { b } else { 5 }; s.laryngeal = if which == 1 { b } else { 2 }; s.manner = 0xa5; *s.place = *st;
+            for fi in 0..26 { for pos in [true, false] { seg_case(&mut rep, s, fi, pos); } }
+        } } }
         let mut s = Segment::default(); s.root = 3; s.manner = 0x81; s.laryngeal = 4; *s.place = *st;
         for i in 0..4 { for v in (0..=MAXV[i]).map(Some).chain(std::iter::once(None)) { node_case(&mut rep, s, i, v); } }
         // root / manner / laryngeal bytes through set_node/get_node
